@@ -4,6 +4,7 @@ import Driver.Secure
 import Driver.DelayedValidate
 import Driver.C20
 import Driver.C18
+import Driver.C11
 
 def main (args : List String) : IO UInt32 := do
   let stdin ← IO.getStdin
@@ -14,4 +15,5 @@ def main (args : List String) : IO UInt32 := do
   | ["delayed"] => DelayedVal.main stdin
   | ["c20"] => C20Val.main stdin
   | ["c18"] => C18Val.main stdin
+  | ["c11"] => C11Val.main stdin
   | _ => do IO.eprintln "usage: midriver <trval|entry|...>"; return 2
